@@ -195,6 +195,16 @@ class Comp(StandIn):
     def __float__(self):
         return float(self.area)
 
+    def __bool__(self):
+        # the truth value of a shape is what the repository's BaseShape.__bool__ says (area > 0 today)
+        q = "shape.BaseShape.__bool__"
+        if _CTX is None or q not in _CTX.model.funcs:
+            return True
+        return bool(Runner(_CTX, set(), None).call_fn(_CTX.fn(q), [self]))
+
+
+_CTX = None
+
 
 class Arr(StandIn):
     """tiny stand-in for a numpy array of floats (1-d or 2-d): transpose, slicing, @, elementwise - and *"""
@@ -247,6 +257,8 @@ class Cur(StandIn):
 
 def plot_run(ctx, shape, kind):
     fn = ctx.fn("plot.ShapePloter.plot_shape")
+    global _CTX
+    _CTX = ctx
     ax = Axes()
     P = Obj("ploter")
 
@@ -275,9 +287,9 @@ def r20_4(ctx):
                            "background) and each boundary curve one outline and one scatter", floor=4)
     fn = ctx.fn("plot.ShapePloter.plot_shape")
     try:
-        calls = plot_run(ctx, Obj("E"), "EmptyShape")
+        calls = plot_run(ctx, Comp("E", 0.0, []), "EmptyShape")
         (out.ok if not calls else out.bad)(fn.qname, "Empty draws nothing" if not calls else f"Empty draws {calls}", where=fn.where())
-        calls = plot_run(ctx, Obj("W"), "WholeShape")
+        calls = plot_run(ctx, Comp("W", float("inf"), []), "WholeShape")
         ok = [c[0] for c in calls] == ["facecolor"]
         (out.ok if ok else out.bad)(fn.qname, "Whole only colours the background" if ok else f"Whole draws {calls}", where=fn.where())
         # disjoint shape mixing a bounded and an unbounded component; total area negative
